@@ -303,6 +303,12 @@ func cmdCheck(args []string) int {
 
 	type progKey struct{ pkg, files string }
 	progs := map[progKey]*loaded{}
+	pools := map[progKey]*workerPool{}
+	defer func() {
+		for _, p := range pools {
+			p.Close()
+		}
+	}()
 	var results []*harnessResult
 	var allViolations []Violation
 	engineFault := ""
@@ -357,7 +363,22 @@ func cmdCheck(args []string) int {
 			ex := NewExplorer(ld.prog, ExploreConfig{Harness: h.Name, Pkg: ld.pkg, Fn: fn, Params: params, Workers: *workers,
 				MaxSteps: maxSteps, PanicIsViolation: !h.PanicOK, BudgetIsViolation: h.BudgetViolation, Goroutine: h.Goroutine,
 				Setup: h.Setup, WantInit: want})
-			if err := ex.Run(); err != nil {
+			pool := pools[key]
+			if pool == nil || h.Setup != nil {
+				var err error
+				pool, err = newWorkerPool(ld.prog, ld.pkg, *workers, want, h.Setup)
+				if err != nil {
+					fmt.Fprintln(os.Stderr, "pool:", err)
+					return 2
+				}
+				if h.Setup == nil {
+					pools[key] = pool
+				} else {
+					defer pool.Close()
+				}
+				fmt.Fprintf(os.Stderr, "[%s] worker pool ready (package init interpreted) in %.1fs\n", id, pool.initS)
+			}
+			if err := ex.RunWith(pool); err != nil {
 				fmt.Fprintln(os.Stderr, "explore:", err)
 				return 2
 			}
